@@ -465,6 +465,19 @@ func checkC15(c *Ctx) {
 		c.reachRule(p, "C15.expander", "a 255-byte DST is used verbatim (not hashed)", f, nil, nil, dstIs(255), "expander.mustWrite", false)
 		c.reachRule(p, "C15.expander", "a 256-byte DST is hashed (oversize rule)", f, nil, nil, dstIs(256), "expander.mustWrite", true)
 	}
+	// RFC 9380, 5.3.1 / 5.3.2: abort if len_in_bytes > 65535 (its two-byte encoding would wrap and the request
+	// would collide with a shorter one); nothing may be hashed for such a request
+	for _, typ := range []string{"expanderMD", "expanderXOF"} {
+		f := p.Func("expander", typ, "Expand")
+		// (expand_message_xmd bounds ell = ceil(n / digest size) by 255; 64 bytes is the largest digest of crypto.Hash,
+		// and a smaller digest only makes ell larger)
+		var as []Assume
+		if typ == "expanderMD" {
+			as = []Assume{calleeAssume(latInt(64), -1, "invoke (hash.Hash).Size")}
+		}
+		c.reachRule(p, "C15.expander", "an output length of 65536 bytes is refused before anything is hashed", f, map[string]lat{"n": latInt(65536)}, as, nil, "expander.mustWrite", false)
+		c.reachRule(p, "C15.expander", "an output length of 32 bytes is served", f, map[string]lat{"n": latInt(32)}, as, nil, "expander.mustWrite", true)
+	}
 	// lanes: the turbo flag reaches the scalar permutation
 	for _, n := range []string{"permuteScalarX2", "permuteScalarX4"} {
 		f := p.Func("simd/keccakf1600", "", n)
